@@ -214,7 +214,7 @@ fn check_accepted(b: &[u8], view: &codec::MsgView, l: &mut Local, origin: &'stat
 // ---------------------------------------------------------------------------
 // Generators
 
-fn valid_packet(rng: &mut Rng) -> Vec<u8> {
+pub fn valid_packet(rng: &mut Rng) -> Vec<u8> {
     let m = gen::random_message(rng, gen::ALL_TYPES, 8, 63);
     if rng.chance(1, 3) {
         // through the crate's own encoder
@@ -235,7 +235,7 @@ fn valid_packet(rng: &mut Rng) -> Vec<u8> {
     )
 }
 
-fn g1_random(rng: &mut Rng) -> Vec<u8> {
+pub fn g1_random(rng: &mut Rng) -> Vec<u8> {
     let len = match rng.below(8) {
         0 => rng.usize(13),
         1 => 9000 - rng.usize(30),
@@ -256,7 +256,7 @@ fn g1_random(rng: &mut Rng) -> Vec<u8> {
     b
 }
 
-fn g2_mutate(rng: &mut Rng) -> Vec<u8> {
+pub fn g2_mutate(rng: &mut Rng) -> Vec<u8> {
     let mut b = valid_packet(rng);
     let n = 1 + rng.usize(4);
     for _ in 0..n {
@@ -370,7 +370,7 @@ fn hostile_name(rng: &mut Rng, b: &mut Vec<u8>, marks: &mut Vec<usize>) {
     }
 }
 
-fn g3_grammar(rng: &mut Rng) -> Vec<u8> {
+pub fn g3_grammar(rng: &mut Rng) -> Vec<u8> {
     let mut b = vec![0u8; 12];
     let response = rng.chance(2, 3);
     if response {
